@@ -59,6 +59,8 @@ structure R where
   wakes : Nat := 0
   pops : Nat := 0
   swcExpect : List (String × String × Int) := []   -- per caller thread: branch record (su/sd, value) the model predicted at `sr`
+  peekRecheck : Bool := false          -- set by `replay` for an `aw` record: the worker's next record is a re-read (ip/ik)
+  killFirst : List (Nat × Int) := []   -- workers that re-read workerKill BEFORE the queue size (one L section: order free)
   fifoQ : Bool := true                 -- DefaultTaskQueue: Pop returns the oldest task (checked); engine.TaskQueue: any
   earlyBc : Nat := 0                   -- unlocked broadcasts already performed whose record is still to come
 
@@ -175,16 +177,25 @@ def stepRec (c : Rec) (r0 : R) : M R := do
     | "ip" =>
       let p ← argNat c.args 0
       expect (p == (r.s.queue.length : Int)) s!"ip: pending observed {p}, model {r.s.queue.length}"
-      ev (.readQ i) r
+      let r ← ev (.readQ i) r
+      match r.killFirst.lookup i with
+      | some k =>
+        -- workerKill was re-read first (same L section; the two reads commute unless workerKill changed in between)
+        expect (k == r.s.kill) s!"ip: workerKill changed between the two re-reads ({k} then {r.s.kill}): their order matters in this run"
+        let r ← ev (.readKill i) r
+        pure { r with killFirst := r.killFirst.filter (·.1 != i) }
+      | none => pure r
     | "ik" =>
       let k ← argNat c.args 0
       expect (k == r.s.kill) s!"ik: workerKill observed {k}, model {r.s.kill}"
-      ev (.readKill i) r
+      if pcOf r i == .hasL then pure { r with killFirst := (i, k) :: r.killFirst.filter (·.1 != i) }
+      else ev (.readKill i) r
     | "bw" => expect (pcOf r i == .willWait) "bw: model does not wait here"; pure { r with lazy := some i }
     | "aw" =>
       let r ← flush r
       expect (pcOf r i == .woken) "aw: worker returned from Wait but nothing woke it in the model"
-      let r ← ev (.wRelock i) r
+      -- return from idleTask.Run, or (wait-loop idiom) re-check the predicate under L
+      let r ← if r.peekRecheck then ev (.wRecheck i) r else ev (.wRelock i) r
       pure { r with wakes := r.wakes + 1 }
     | "rt" => expect (pcOf r i == .unlocking) "rt: model is not at the end of idleTask.Run"; pure { r with lazy := some i }
     | "iu" => do let r ← flushOwn r i; ev (.unregIdle i) r
@@ -300,7 +311,12 @@ def signalAlts (r : R) : M (List (Unit → M R)) := do
 
 def replay : List Rec → Nat → R → M R
   | [], _, r => flush r
-  | c :: rest, k, r =>
+  | c :: rest, k, r0 =>
+    let r : R := if c.code == "aw" then
+        { r0 with peekRecheck := match rest.find? (·.thread == c.thread) with
+                                 | some d => d.code == "ip" || d.code == "ik"
+                                 | none => false }
+      else r0
     let wrap (e : M R) : M R :=
       tryCatch e fun m => throw (if m.startsWith "@" then m else s!"@{k} {c.thread}.{c.code}: {m}")
     if c.code == "as" then
